@@ -21,6 +21,7 @@ MANIFEST = dict(
          "read, from construct() and on the Pipeline model (C02_cover_sequential_partial, C02_cover_from_start_partial, "
          "C02_cover_sequential_pipeline_partial); no stale descriptor in the reader's tables at any drained point of these histories - every key of _path_for_wd and every value of _wd_for_path is a live kernel watch (clauses of the watch invariant; C02_tables_live_synced, C02_tables_live, and as C11's hypothesis C02_tidy_from); "
          "the same when the records of an operation are read in SEVERAL reads - any cut of the batch, no operation in between: reader state, kernel and events are those of one big read (C02_cut_reads, C02_cut_paired, C02_cover_block_cuts_partial, C02_cover_sequential_pipeline_cuts_partial); "
+         "directory move-outs BACK TO BACK are covered too (the first candidate is forgotten by the second IN_MOVED_FROM, its descriptors' IN_IGNORED are junk, the second is pending: C02_pending_transfer, C02_out_after_out, C02_cover_sequential_x2_partial, C02_cover_from_start_x2_partial, C02_cover_sequential_pipeline_x2_partial; not the nested case where the second directory is moved INTO the first); "
          "the probe law (C02_probe) and the non-recursive law (C02_flat); the pinned code is "
          "refuted (C02_pinned_movein_refuted, C02_pinned_mkdir_rename_refuted, and with c_fix_moveout := c_fix_relabel := false C02_f10d_pinned_refuted, "
          "C02_f10b_pinned_stale). Extra hypotheses of the move-out theorems: full event mask; the operation right after a directory "
